@@ -1240,6 +1240,134 @@ func directedOverlap(c *ctx) {
 		}
 	}
 	c.stat("overlap_policies", n)
+	directedHistories(c)
+}
+
+// directedHistories: histories in which one call creates several rule lists and later calls extend
+// them one at a time (different elements, different attributes, every scope; attributes and
+// styles), an element that is allowed bare through a pattern and also named by a call, and switch
+// options set on a zero-value Policy{} before the first call that initialises it.
+func directedHistories(c *ctx) {
+	n := 0
+	pats := []string{`^[a-z]+$`, `^[0-9]+$`, `^.{0,2}$`, `^[A-Z]+$`}
+	vals := []string{"abc", "123", "a1", "", "ABC", "a-b"}
+	attrDocs := func(pid int, pol *bluemonday.Policy) {
+		for _, el := range []string{"b", "i", "u", "my-x", "my-y"} {
+			for _, v := range vals {
+				c.san(pid, pol, []byte("<"+el+" title=\""+v+"\" lang=\""+v+"\" id=\""+v+"\">t</"+el+">"))
+			}
+		}
+	}
+	type sc struct {
+		one, other, both func() *bmx.Op
+	}
+	sharedRe, sharedRe2 := bmx.NewRE(`^(b|my-x)$`), bmx.NewRE(`^(i|my-y)$`)
+	scopes := []sc{
+		{func() *bmx.Op { return &bmx.Op{Scope: "E", ScopeEl: []string{"b"}} }, func() *bmx.Op { return &bmx.Op{Scope: "E", ScopeEl: []string{"i"}} },
+			func() *bmx.Op { return &bmx.Op{Scope: "E", ScopeEl: []string{"b", "i"}} }},
+		{func() *bmx.Op { return &bmx.Op{Scope: "G"} }, func() *bmx.Op { return &bmx.Op{Scope: "G"} }, func() *bmx.Op { return &bmx.Op{Scope: "G"} }},
+		{func() *bmx.Op { return &bmx.Op{Scope: "M", ScopeRe: sharedRe} }, func() *bmx.Op { return &bmx.Op{Scope: "M", ScopeRe: sharedRe2} },
+			func() *bmx.Op { return &bmx.Op{Scope: "M", ScopeRe: sharedRe} }},
+	}
+	aa := func(o *bmx.Op, names []string, re string) *bmx.Op {
+		o.Kind, o.Names = "AA", names
+		if re != "" {
+			o.Re = bmx.NewRE(re)
+		}
+		return o
+	}
+	for _, s := range scopes {
+		for order := 0; order < 2; order++ {
+			for shape := 0; shape < 3; shape++ {
+				ops := []*bmx.Op{{Kind: "AE", Names: []string{"b", "i", "u"}}, {Kind: "AEM", Re: bmx.NewRE(`^my-`)}}
+				ops = append(ops, aa(s.both(), []string{"title", "lang", "id"}, pats[0]))
+				var l1, l2 *bmx.Op
+				switch shape {
+				case 0: // the same attribute, extended on one element (pattern) and then on the other
+					l1, l2 = aa(s.one(), []string{"title"}, pats[1]), aa(s.other(), []string{"title"}, pats[2])
+				case 1: // two attributes of the same scope, one after the other
+					l1, l2 = aa(s.both(), []string{"title"}, pats[1]), aa(s.both(), []string{"lang"}, pats[3])
+				case 2: // the second extension has no pattern
+					l1, l2 = aa(s.one(), []string{"lang"}, pats[1]), aa(s.both(), []string{"id"}, "")
+				}
+				if order == 1 {
+					l1, l2 = l2, l1
+				}
+				ops = append(ops, l1, l2)
+				pid, pol := c.policy(ops)
+				attrDocs(pid, pol)
+				n++
+			}
+		}
+	}
+	// the same through AllowStyles
+	as := func(o *bmx.Op, names []string, re string, enum []string) *bmx.Op {
+		o.Kind, o.Names, o.Enum = "AS", names, enum
+		if re != "" {
+			o.Re = bmx.NewRE(re)
+		}
+		return o
+	}
+	for _, s := range scopes {
+		for shape := 0; shape < 3; shape++ {
+			ops := []*bmx.Op{{Kind: "AE", Names: []string{"b", "i", "u"}}, {Kind: "AEM", Re: bmx.NewRE(`^my-`)}, {Kind: "AA", Names: []string{"style"}, Scope: "G"}}
+			ops = append(ops, as(s.both(), []string{"color", "width", "float"}, `^[a-z]+$`, nil))
+			switch shape {
+			case 0:
+				ops = append(ops, as(s.one(), []string{"color"}, `^[0-9]+px$`, nil), as(s.other(), []string{"color"}, ``, []string{"#fff", "x1"}))
+			case 1:
+				ops = append(ops, as(s.both(), []string{"color"}, `^[0-9]+px$`, nil), as(s.both(), []string{"width"}, ``, []string{"#fff", "x1"}))
+			case 2:
+				ops = append(ops, as(s.one(), []string{"width"}, ``, nil), as(s.both(), []string{"float"}, `^#[a-f]+$`, nil))
+			}
+			pid, pol := c.policy(ops)
+			for _, el := range []string{"b", "i", "u", "my-x", "my-y"} {
+				for _, v := range []string{"red", "10px", "left", "#fff", "x1"} {
+					c.san(pid, pol, []byte("<"+el+" style=\"color: "+v+"; width: "+v+"; float: "+v+"\">t</"+el+">"))
+				}
+			}
+			n++
+		}
+	}
+	// allowed bare through a pattern, and also named by a call
+	for _, named := range [][]*bmx.Op{
+		{{Kind: "AE", Names: []string{"x-card"}}},
+		{{Kind: "AA", Names: []string{"id"}, Scope: "E", ScopeEl: []string{"x-card", "a"}}},
+		{{Kind: "AA", Names: []string{"href"}, Scope: "E", ScopeEl: []string{"a"}}},
+		{{Kind: "AE", Names: []string{"a", "x-card", "span"}}},
+		{},
+	} {
+		for order := 0; order < 2; order++ {
+			bare := []*bmx.Op{{Kind: "AA", Empty: true, Scope: "M", ScopeRe: bmx.NewRE(`^(x-card|a|span)$`)}}
+			ops := append(append([]*bmx.Op{}, bare...), named...)
+			if order == 1 {
+				ops = append(append([]*bmx.Op{}, named...), bare...)
+			}
+			pid, pol := c.policy(ops)
+			for _, d := range []string{"<x-card>t</x-card>", "<a>t</a>", "<span>t</span>", "<x-card id=\"1\">t</x-card>", "<a href=\"/x\">t</a>", "<a id=\"1\">t</a>", "<x-other>t</x-other>", "<A>t</A><SPAN>u</SPAN>"} {
+				c.san(pid, pol, []byte(d))
+			}
+			n++
+		}
+	}
+	// switch options set on a zero-value Policy{} before the first call that initialises it
+	for _, sw := range []*bmx.Op{{Kind: "SP", Flag: true}, {Kind: "NF", Flag: true}, {Kind: "NR", Flag: true}, {Kind: "NFQ", Flag: true}, {Kind: "NRQ", Flag: true},
+		{Kind: "TB", Flag: true}, {Kind: "CO", Flag: true}, {Kind: "PU", Flag: true}, {Kind: "RU", Flag: true}, {Kind: "AC"}, {Kind: "DA"}} {
+		for _, later := range [][]*bmx.Op{
+			{{Kind: "AE", Names: []string{"b", "a", "img"}}},
+			{{Kind: "AA", Names: []string{"href", "src", "data-x"}, Scope: "E", ScopeEl: []string{"a", "img", "b"}}},
+			{{Kind: "US", Names: []string{"http"}}, {Kind: "AA", Names: []string{"href", "src"}, Scope: "G"}, {Kind: "AE", Names: []string{"a", "img"}}},
+			{},
+		} {
+			ops := append([]*bmx.Op{{Kind: "ZERO"}, sw}, later...)
+			pid, pol := c.policy(ops)
+			for _, d := range []string{"<p>Hello</p><p>World</p><b>x</b>", "<a href=\"http://h/p\">t</a><img src=\"http://h/i\"><!--c-->", "<a href=\"/rel\" data-x=\"1\">t</a><b data-x=\"2\">u</b>", "<i>a</i><i>b</i>"} {
+				c.san(pid, pol, []byte(d))
+			}
+			n++
+		}
+	}
+	c.stat("history_policies", n)
 }
 
 
